@@ -376,6 +376,55 @@ func checkC09(w *World) {
 	}
 	w.floor(P, "R09.1", 5)
 
+	// R09.6 values verbatim
+	docRule(P, "R09.6", "F", "values are handed on as the decoder delivered them: every string that the attribute and namespace builders store next to a name is the xml.Attr's Value itself (or a constant), not the result of a call - encoding/xml has already expanded references and normalised line ends; a second normalisation (trimming, whitespace folding) changes values that were written with character references.")
+	if nsBuilder != nil && attrBuilder != nil {
+		for _, b := range []*ssa.Function{nsBuilder, attrBuilder} {
+			n := 0
+			for g := range staticReach(b, func(x *ssa.Function) bool { return fnPkgKey(x) == "parser" }) {
+				if fnPkgKey(g) != "parser" {
+					continue
+				}
+				allInstrs(g, func(in ssa.Instruction) {
+					st, ok := in.(*ssa.Store)
+					if !ok || !isStringType(st.Val.Type()) {
+						return
+					}
+					fa, ok := st.Addr.(*ssa.FieldAddr)
+					if !ok {
+						return
+					}
+					if _, isAlloc := fa.X.(*ssa.Alloc); !isAlloc {
+						return
+					}
+					// which field of the xml.Attr does the stored string come from, and through what
+					viaCall := ""
+					fromValue := false
+					backSlice(st.Val, func(v ssa.Value) bool {
+						if c, ok := v.(*ssa.Call); ok {
+							if _, isB := c.Call.Value.(*ssa.Builtin); !isB {
+								viaCall = calleeName(c)
+							}
+						}
+						if loadedFieldName(v) == "Value" {
+							fromValue = true
+						}
+						return true
+					})
+					if !fromValue {
+						return
+					}
+					n++
+					w.check(P, "R09.6", "attribute value stored by "+g.Name(), st.Pos(), viaCall == "", "the stored value is xml.Attr.Value unchanged: "+fmt.Sprint(viaCall == "")+orElse(" (passes through "+viaCall+")", ""))
+				})
+			}
+			if n == 0 {
+				w.undecided(P, "R09.6", "values stored by "+b.Name(), b.Pos(), "no store of the attribute's Value found")
+			}
+		}
+	}
+	w.floor(P, "R09.6", 2)
+
 	// R09.2 token switch
 	wantTok := map[string]string{"StartElement": "Element", "CharData": "CharData", "Comment": "Comment", "ProcInst": "ProcInst"}
 	exclusive := []string{"Element", "Attribute", "Namespace", "CharData", "Comment", "ProcInst"}
